@@ -319,7 +319,9 @@ long long c_delineate_boundary(long long nrows, long long ncols,
         }
 
         /* Iterate if we have a neighbour */
-        buffer[knext] = -1;
+        if(knext >= 0)
+            buffer[knext] = -1;
+
         idxcell = next;
     }
 
